@@ -608,7 +608,7 @@ func TestEnum(t *testing.T) {
 	core.MarkExhaustive("c07/raw", fmt.Sprintf("every truncation and every single-byte substitution {00, ff, b^1, b^80, b+1} of %d small valid bags (%d inputs over all shards)", len(seeds), total))
 }
 
-func TestReplay(t *testing.T) { core.Replay(t, mutate, liar, random, raw) }
+func TestReplay(t *testing.T) { core.Replay(t, mutate, liar, random, raw, deepChain) }
 
 func FuzzBoc(f *testing.F) {
 	var seeds [][]byte
